@@ -89,7 +89,7 @@ def gen_req_lens(rng, budget):
 
 def gen_source(rng, budget, opts, direction):
     src = _pick(rng, opts.get('sources', [(3, 'gen'), (2, 'agen'), (2, 'manual')]))
-    count = _pick(rng, [(1, 0), (2, 1), (2, 2), (3, rng.randint(3, 8)), (1, rng.randint(9, opts.get('max_count', 30)))])
+    count = _pick(rng, [(1, 0), (2, 1), (2, 2), (3, rng.randint(3, 8)), (1, rng.randint(min(9, opts.get('max_count', 30)), opts.get('max_count', 30)))])
     sc = {'src': src, 'count': count, 'lens': gen_lens(rng, budget, rng.randint(1, 3)),
           'end': _pick(rng, [(2, 'flag'), (3, 'separate')])}
     if count == 0:
@@ -166,7 +166,8 @@ def gen_interaction(rng, iid, opts, cfgs):
     elif kind == 'channel':
         resp = gen_source(rng, resp_budget, opts, 'r') if rng.random() < opts.get('p_resp_pub', 0.85) else {}
         pub = gen_source(rng, req_budget, opts, 'c') if rng.random() < opts.get('p_req_pub', 0.8) else None
-        if rng.random() < opts.get('p_resp_sub', 0.9):
+        if pub is not None or rng.random() < opts.get('p_resp_sub', 0.9):
+            # a requester publisher can only finish if somebody grants it credit
             resp['sub'] = gen_sub(rng, (pub or {}).get('count', 0), opts, False)
         if rng.random() < 0.04 and opts.get('errors', True):
             resp['mode'] = 'raise'
@@ -231,6 +232,10 @@ def gen_core(seed, opts=None):
             p['chunk'] = 'all'
     n = _pick(rng, opts.get('n_interactions', [(1, 1), (2, 2), (2, 3), (2, 4), (1, 6), (1, 8)]))
     plan['interactions'] = [gen_interaction(rng, i, opts, cfgs) for i in range(n)]
+    slow = max(max(pol.get('drain_delay', 0) if pol.get('drain') == 'delay' else 0, pol.get('latency', 0))
+               for pol in plan['link'].values())
+    if 'keepalive_ms' in plan['client'] and plan['client']['keepalive_ms'] < slow * 1000 * 20:
+        plan['client']['keepalive_ms'] = 500 if slow <= 0.02 else 5000
     est = _estimate_bytes(plan)
     for pol in plan['link'].values():
         if est > 3000 and pol.get('chunk') in (1, 2, 3):
@@ -248,4 +253,42 @@ def gen_core(seed, opts=None):
                            'at': round(0.01 + rng.uniform(0, 0.02), 4), 'dur': _pick(rng, [(2, 0.01), (2, 0.1), (1, 2.0)])})
     plan['faults'] = faults
     plan['horizon'] = opts.get('horizon', 600.0)
+    return plan
+
+
+def gen_ids(seed, opts=None):
+    """Id-space profile: reduced maximum stream id (2^k - 1, as the suite does) or the full space
+    with the cursor near the top; many short interactions plus a few long-lived ones."""
+    opts = dict(opts or {})
+    rng = random.Random(seed ^ 0x1D5)
+    opts.setdefault('n_interactions', [(1, rng.randint(8, 40))])
+    opts.setdefault('fragments', [(5, None), (1, 64)])
+    opts.setdefault('kinds', [(4, 'rr'), (2, 'fnf'), (3, 'stream'), (2, 'channel')])
+    opts.setdefault('errors', True)
+    opts.setdefault('max_count', 6)
+    plan = gen_core(seed, opts)
+    for ep in ('client', 'server'):
+        r = rng.random()
+        if r < 0.75:
+            plan[ep]['max_sid'] = _pick(rng, [(2, 7), (3, 15), (3, 31), (2, 63)])
+        elif r < 0.95:
+            start = 0x7FFFFFFF - 2 * rng.randint(0, 6)  # odd: the client's cursor
+            plan[ep]['sid_start'] = start if ep == 'client' else start - 1
+    span = _pick(rng, [(1, 0.0), (2, 0.05), (2, 0.5)])
+    for ia in plan['interactions']:
+        ia['at'] = round(rng.uniform(0, span), 4)
+        ia['req'] = {'dlen': rng.randint(8, 40), 'mlen': None}
+        for sc in (ia.get('resp'), ia.get('pub')):
+            if sc and 'lens' in sc:
+                sc['lens'] = [[rng.randint(1, 40), None]]
+            if sc and 'dlen' in sc:
+                sc['dlen'], sc['mlen'] = rng.randint(1, 40), None
+        if rng.random() < 0.25:
+            # long-lived: keeps its id while others come and go
+            if ia['kind'] == 'rr':
+                ia['resp']['mode'] = 'delay'
+                ia['resp']['delay'] = round(rng.uniform(0.05, 1.0), 3)
+            elif ia['kind'] in ('stream', 'channel') and ia['resp'].get('src'):
+                ia['resp']['pacing'] = round(rng.uniform(0.01, 0.2), 3)
+    plan['nontrivial'] = True
     return plan
